@@ -25,7 +25,7 @@ def main():
             print(f"== {name}: {len(ctx.obligations)} obligations (gen {time.time()-t0:.1f}s; feasibility {FEAS_STATS})")
             for ob in ctx.obligations:
                 r = verify.solve(ctx, ob, 10000)
-                flag = {"discharged": "ok ", "refuted": "REFUTED", "unknown": "UNKNOWN"}[r["status"]]
+                flag = {"discharged": "ok ", "refuted": "REFUTED", "unknown": "UNKNOWN"}.get(r["status"], r["status"])
                 print(f"   {flag} {r['time']:.2f}s {ob['id']}")
                 if r["status"] != "discharged" and "-v" in sys.argv:
                     print("      ", r.get("model", r.get("detail"))[:800])
